@@ -106,7 +106,7 @@ _MCMC_ASSUME = ["G.edges[e][name] / G.nodes[n][name] read annotations of a clean
                 "the @proposal_efficiency decorator returns what the wrapped function returns (counting only)"]
 PLANS["C11"] = dict(
     level="other", bounded="c11",
-    modules=[dict(name="mcmc", only=r"(pair\.|is_edge_choice_suitable|get_other_vertex|append_proposal_edges|get_hashmap)", expected_open=[r"pair\.(u_side_joins_v_motif|v_side_joins_u_motif)"])],
+    modules=[dict(name="mcmc", only=r"(pair\.|is_edge_choice_suitable|get_other_vertex|append_proposal_edges|get_hashmap|get_all_edges|MarkovChainMonteCarloRewiring\.__init__|rewire:static)", expected_open=[r"pair\.(u_side_joins_v_motif|v_side_joins_u_motif)"])],
     technique="deductive verification of the real proposal construction and suitability test (swap_condition pairing clauses with a ghost map of popped partners, is_edge_choice_suitable with four loop invariants, helpers) by VCs from the AST in z3/cvc5; the whole randomized run by bounded run-time postconditions of rewire over every prefix of the swap history (labelled stand-in); one open known finding (motif-id pairing)",
     level_text="Proved for all inputs: proposal 2i is (u0, v1_i) and proposal 2i+1 is (v0, u1_i) with the popped partner of the same topology; a suitable choice has equal corner sizes, pairwise different motif ids, no proposed edge already present and no proposed self-loop; helpers. The motif-id pairing obligations (the corner that moves into a motif takes that motif's id) FAIL on the current tree and are an OPEN KNOWN FINDING (the repair makes the repository's own test time out). The whole-run clauses (input untouched, vertices, annotations, edge count, per-vertex per-topology degrees, no self-loop, default limits) are bounded only.",
     level_note="Trusted: vf VC generator, z3/cvc5; assumed networkx read contracts; A-CALLBACK n/a. Bounded part: clean generator networks N <= 14 (24 thorough), every prefix of the swap history for limits 0..5 and the default, runs that exceed the RNG-draw budget are abandoned (termination/liveness is not claimed).",
@@ -118,7 +118,7 @@ PLANS["C11"] = dict(
     assumptions=_MCMC_ASSUME, not_decided=["termination of the rewiring loop when no swap can be accepted (liveness)"])
 PLANS["C12"] = dict(
     level="other", bounded="c12",
-    modules=[dict(name="mcmc", skip=r"(pair\.|is_edge_choice_suitable)", expected_open=[r"pair\.(u_side_joins_v_motif|v_side_joins_u_motif)"])],
+    modules=[dict(name="mcmc", skip=r"(pair\.|is_edge_choice_suitable|get_all_edges|MarkovChainMonteCarloRewiring\.__init__|rewire:static)", expected_open=[r"pair\.(u_side_joins_v_motif|v_side_joins_u_motif)"])],
     technique="deductive verification of the real swap_condition acceptance rule (True implies every proposal's pairing key is present with positive weight in its topology's target matrix; numerator-loop invariant in nonlinear real arithmetic) and of the key views / key builders, VCs from the AST in z3/cvc5; created-edge check on bounded rewiring runs as labelled stand-in",
     level_text="Clause 1 is proved for all inputs and RNG outcomes: swap_condition returns True only if, for every proposal edge, its topology is known to the target, the concatenated excess key of its two end points is present in that topology's matrix and its weight is non-zero hence positive; the six key-view getters, the topology index and the key builders are proved to return exactly the named tuples. Clause 2 (the chain approaches the target) is a convergence statement and is not decided by contracts.",
     level_note="Trusted: vf VC generator, z3/cvc5 (nonlinear real arithmetic for the product invariant); assumed networkx read contracts, L-CAT, set literal / issubset semantics, try/except routing. Bounded part: targets with pairings removed or zeroed on the C11 networks.",
@@ -231,11 +231,11 @@ PLANS["C08"] = dict(
 
 PLANS["C14"] = dict(
     level="other", bounded="c14",
-    modules=[dict(name="average")],
-    technique="deductive verification of the real get_average_joint_degrees (nested loops over a dict's key list against a weighted-sum spec function) by VCs from the AST in z3/cvc5; all other identities of the algebra by exact-Fraction run-time postconditions (labelled stand-in)",
-    level_text="Proved for all distributions: the mean joint degree is the P-weighted mean (component-wise weighted sum over the key enumeration). The excess-distribution formula, its normalisation, the inversion (for arbitrary topology names and dict orders), row sums of mixing matrices, key halves and the network histogram are decided by the bounded stand-in with exact Fractions; hence `other`.",
-    level_note="Trusted: vf VC generator, z3/cvc5; assumed: list(d.keys()) enumerates the keys once; A-REAL. Bound: supports of <= 5 keys over 1-4 topologies with degrees <= 3, names and dict orders random; clean annotated networks with <= 7 (10) vertices.",
-    explanation="PROVED: AverageJointDegreeFromJDD.get_average_joint_degrees weighted_mean / len / enumeration / input_unchanged (22 obligations). BOUNDED: q_i(k - e_i) = k_i P(k)/<k_i> with mass 1; inversion returns P restricted to non-zero joint degrees; row sums = excess distribution (also against the network's empirical P); excess keys = halves of matrix keys; network histogram; list/dict conversions aligned.",
-    clauses={"excess distribution formula, sums to 1": "bounded", "inversion returns P (non-zero joint degrees)": "bounded (arbitrary names, dict orders)", "row sums of a mixing matrix = excess distribution; network-derived agrees with the empirical P": "bounded",
-             "mean joint degree is the P-weighted mean": "proved"},
+    modules=[dict(name="algebra")],
+    technique="deductive verification of the real get_average_joint_degrees, get_joint_excess_distributions (nested loops over the key enumeration, witness ghost maps for the 'nothing else' clause, modular call of the mean), invert_single and the network histogram by VCs from the AST in z3/cvc5; the remaining identities (normalisation, composite inversion, row sums, key halves) by exact-Fraction run-time postconditions (labelled stand-in)",
+    level_text="Proved for all distributions: the mean joint degree is the P-weighted mean; q_i has exactly the keys k - e_i for k in the support with k_i > 0 and q_i(k - e_i) = k_i P(k) / mean_i where mean = the value returned by the mean routine; the single inversion gives every key one more i-edge with weight (q(k)/(k_i+1)) / (their sum as computed) and nothing else; the network histogram is count/order. 'Sums to 1', the composite inversion for arbitrary names and row sums of mixing matrices are decided by the bounded stand-in; hence `other`.",
+    level_note="Trusted: vf VC generator, z3/cvc5; assumed: list(d.keys()) / dict iteration enumerate every key once, G.nodes() / G.order(), G.nodes[n][k]; A-REAL; sum(list) left opaque. Bound of the stand-in: supports of <= 5 keys over 1-4 topologies with degrees <= 3, random names and dict orders; clean annotated networks with <= 7 (10) vertices.",
+    explanation="PROVED (100 obligations): AverageJointDegreeFromJDD.get_average_joint_degrees; JointExcessfromJDD.get_joint_excess_distributions one_per_topology / excess_formula / nothing_else / input_unchanged (inner invariants with an explicit trigger on the key enumeration, 'removing one edge is injective' hint, witness ghost maps src / wit); JointDegreeFromExcess.invert_single; JointDegreeDistributionFromNetwork.get_joint_degree_distribution vertex_histogram. BOUNDED: mass 1 of q_i; inversion returns P restricted to non-zero joint degrees for arbitrary names/dict orders; row sums = excess distribution (also against the network's empirical P); excess keys = halves of matrix keys; list/dict conversions.",
+    clauses={"excess distribution formula": "proved (excess_formula, nothing_else); sums to 1: bounded", "inversion returns P (non-zero joint degrees)": "single inversion proved; composite inversion bounded (arbitrary names, dict orders)",
+             "row sums of a mixing matrix = excess distribution; network-derived agrees with the empirical P": "bounded", "mean joint degree is the P-weighted mean": "proved", "network histogram": "proved"},
     not_decided=["distributions beyond the bound for the bounded clauses"])
